@@ -79,6 +79,7 @@ func main() {
 	known := flag.String("known", "/verif/known_findings.json", "known findings file")
 	seed := flag.Int64("seed", 0, "seed")
 	verbose := flag.Bool("v", false, "verbose")
+	replayModel := flag.String("replay-model", "", "JSON file with {inputs:[...]}: run the harness concretely on this model")
 	flag.Parse()
 
 	t0 := time.Now()
@@ -98,6 +99,25 @@ func main() {
 		MaxPaths: *maxPaths, Workers: *workers, SolverArgv: strings.Fields(*solver), TimeoutS: *timeout, Verbose: *verbose,
 		ModelSamples: *models, Seed: *seed}
 	E.openFindings = loadKnown(*known)
+	if *replayModel != "" {
+		b, err := os.ReadFile(*replayModel)
+		if err != nil {
+			fmt.Fprintln(os.Stderr, err)
+			os.Exit(3)
+		}
+		var doc struct {
+			Inputs []modelInput `json:"inputs"`
+		}
+		if err := json.Unmarshal(b, &doc); err != nil {
+			fmt.Fprintln(os.Stderr, err)
+			os.Exit(3)
+		}
+		E.replayModel = doc.Inputs
+		if E.replayModel == nil {
+			E.replayModel = []modelInput{}
+		}
+		E.cfg.Workers = 1
+	}
 	loadS := time.Since(t0).Seconds()
 	ro := RunOutput{Repo: *repo, LoadS: loadS, Config: E.cfg, Solver: *solver}
 	for _, h := range strings.Split(*run, ",") {
